@@ -327,6 +327,10 @@ func c04(c *Ctx) {
 	c04PendingInput(c)
 	c04ReporterQueues(c)
 	c04BodyConsumed(c)
+	// the dispatcher's peek connection sits between the listener and every service of a shared port: what it peeked it replays in full (shared with C08)
+	if peekT, peek, pread := p.Type("server", "peekConnection"), p.Method("server", "peekConnection", "Peek"), p.Method("server", "peekConnection", "Read"); c.Anchor(peekT != nil && peek != nil && pread != nil, "peek-replay", "server.peekConnection with Peek and Read") {
+		c08Peek(c, peek, pread, peekT)
+	}
 	// per-line hooks of ftp and smtp: the log send is the first thing after a line was read
 	for _, hk := range []struct{ rel, typ, meth, ch string }{{"services/ftp", "Conn", "receiveLine", "rcv"}, {"services/smtp", "conn", "ReadLine", "rcv"}} {
 		fn := p.Method(hk.rel, hk.typ, hk.meth)
